@@ -619,3 +619,147 @@ func ruleLIST1(c *Ctx) []Ob {
 	}
 	return o.list
 }
+
+// ---------------------------------------------------------------- COD10 / IMP5 (round s)
+
+// COD10: what the document encoder hands to msgpack is what the time-wrapping pass returned. A
+// shortcut that marshals the raw value when a quick look found no time (`if !hasTimes(v) { return
+// msgpack.Marshal(v) }`) stores every time the quick look missed - one inside an object inside an
+// array - with msgpack's native timestamp, which has no zone offset.
+func ruleCOD10(c *Ctx) []Ob {
+	o := newObs(c, "COD10")
+	n := 0
+	for _, fn := range c.LibFuncs {
+		if c.pkgRel(fn) != "internal" {
+			continue
+		}
+		var marshals []*ssa.Call
+		allCalls(fn, func(ci ssa.CallInstruction) {
+			if cl, ok := ci.(*ssa.Call); ok && strings.HasSuffix(calleeFullName(ci), "msgpack/v5.Marshal") {
+				marshals = append(marshals, cl)
+			}
+		})
+		if len(marshals) == 0 {
+			continue
+		}
+		// the pass: a library call whose result some Marshal of fn is given
+		var pass *ssa.Function
+		for _, m := range marshals {
+			for _, a := range m.Call.Args {
+				for _, og := range origins(a) {
+					if cl, ok := og.(*ssa.Call); ok {
+						if g := staticCallee(cl); g != nil && c.IsLib(c.declared(g)) {
+							pass = c.declared(g)
+						}
+					}
+				}
+			}
+		}
+		if pass == nil {
+			continue
+		}
+		for i, m := range marshals {
+			n++
+			key := fmt.Sprintf("%s/what is marshalled went through %s", c.fname(fn), c.fname(pass))
+			if i > 0 {
+				key += fmt.Sprintf(" #%d", i+1)
+			}
+			okAll := true
+			for _, a := range m.Call.Args {
+				for _, og := range origins(a) {
+					cl, isCall := og.(*ssa.Call)
+					if !isCall || staticCallee(cl) == nil || c.declared(staticCallee(cl)) != pass {
+						okAll = false
+					}
+				}
+			}
+			if okAll {
+				o.add(OK, key, relPath(c, m.Pos()), "the value handed to msgpack is the result of the pass")
+			} else {
+				o.add(VIOLATED, key, relPath(c, m.Pos()), "this path hands msgpack a value that did not go through %s: whatever decides to skip the pass has to find every time the pass would find (inside objects inside arrays, at any depth) - a time it misses is stored with msgpack's native timestamp, which keeps the instant and drops the zone offset", c.fname(pass))
+			}
+		}
+	}
+	if n == 0 {
+		o.add(INFO, "encoder", "-", "no function of package internal marshals the result of a library pass")
+	}
+	return o.list
+}
+
+// IMP5: the expiration the import restores is the time the text denotes, zone included: the value
+// put back into the document is what time.Parse returned, not a conversion of it (UTC(), Local(),
+// In(), Truncate(), Round()): C19 compares times as their RFC 3339 text.
+func ruleIMP5(c *Ctx) []Ob {
+	o := newObs(c, "IMP5")
+	imp := c.lookupMethod("", "DB", "ImportCollection")
+	if imp == nil {
+		o.add(INFO, "import", "-", "DB.ImportCollection not found")
+		return o.list
+	}
+	n := 0
+	var fns []*ssa.Function
+	for f := range c.staticReach(imp) {
+		if c.pkgRel(f) == "" {
+			fns = append(fns, f)
+		}
+	}
+	fns = append(fns, imp)
+	sort.Slice(fns, func(i, j int) bool { return c.fname(fns[i]) < c.fname(fns[j]) })
+	seen := map[*ssa.Function]bool{}
+	for _, f := range fns {
+		if seen[f] {
+			continue
+		}
+		seen[f] = true
+		parses := false
+		allCalls(f, func(ci ssa.CallInstruction) {
+			if calleeFullName(ci) == "time.Parse" {
+				parses = true
+			}
+		})
+		if !parses {
+			continue
+		}
+		for _, b := range f.Blocks {
+			for _, in := range b.Instrs {
+				var val ssa.Value
+				switch x := in.(type) {
+				case *ssa.MapUpdate:
+					val = x.Value
+				case *ssa.Call:
+					// doc.SetExpiresAt(t) / doc.Set(name, t)
+					if g := staticCallee(x); g != nil && c.IsLib(c.declared(g)) && c.pkgRel(c.declared(g)) == "document" && len(x.Call.Args) > 1 {
+						val = x.Call.Args[len(x.Call.Args)-1]
+					}
+				}
+				if val == nil {
+					continue
+				}
+				v := stripIfaceOnly(val)
+				if !namedIs(v.Type(), "time", "Time") {
+					continue
+				}
+				n++
+				key := c.fname(f) + "/the restored time is the parsed one"
+				bad := ""
+				for _, og := range origins(v) {
+					if cl, ok := og.(*ssa.Call); ok {
+						switch calleeFullName(cl) {
+						case "(time.Time).UTC", "(time.Time).Local", "(time.Time).In", "(time.Time).Truncate", "(time.Time).Round", "(time.Time).Add", "(time.Time).AddDate":
+							bad = calleeFullName(cl)
+						}
+					}
+				}
+				if bad != "" {
+					o.add(VIOLATED, key, relPath(c, in.Pos()), "the time put back into the imported document went through %s: the instant is the same but its RFC 3339 text is not (a +02:00 expiration comes back as Z), and the copy no longer equals the source as C19 compares times", bad)
+				} else {
+					o.add(OK, key, relPath(c, in.Pos()), "the value stored is what time.Parse returned")
+				}
+			}
+		}
+	}
+	if n == 0 {
+		o.add(INFO, "import", "-", "the import stores no parsed time")
+	}
+	return o.list
+}
